@@ -23,12 +23,12 @@
 \* finding only if the infix spelling compiles to exactly what that `dev` spelling compiles to.
 EXTENDS Integers, Sequences, FiniteSets, TLC, Json
 
-CONSTANTS Family,      \* "d2" | "t3" | "t3p" | "d3" | "comb" | "naive"
+CONSTANTS Family,      \* "d2" | "t3" | "t3p" | "t2x" | "d3" | "comb" | "naive"
           IntAtoms,    \* operand alphabet of type int for the depth families, e.g. {"a", "2"}
           BoolAtoms,   \* operand alphabet of type bool, e.g. {"u", "true"}
           Emit,        \* TRUE: print one JSON record per tree
           CombSizes,   \* set of comb lengths for Family = "comb"
-          Forms        \* postfix leaf forms for Family = "t3p": subset of {"fld", "tix", "chain", "call"}
+          Forms        \* postfix leaf forms for Family = "t3p": subset of {"fld", "tix", "chain", "call", "callfld", "neg", "lit"}
 
 ArithOps == {"+", "-", "*", "/", "%"}
 CmpOps   == {"<", "<=", ">", ">="}
@@ -97,34 +97,52 @@ B2R == B1R \cup BoolLevelR(I1R, B1R, P0)
 \* variable (a b c d / u v w s) and a swap of operands is visible in the code.
 Hole(ty) == [k |-> "hole", ty |-> ty]
 RECURSIVE OpTrees(_, _)
+\* operand classes beyond int/bool (Family "t2x"): float arithmetic and comparison, string concatenation and equality
+XTypes == IF Family = "t2x" THEN {"float", "str"} ELSE {}
+FloatOps == {"+", "-", "*", "/"}
 OpTrees(n, ty) ==
   IF n = 0 THEN {Hole(ty)}
   ELSE LET Split(lt, rt, ops) == UNION {[k : {"bin"}, op : ops, l : OpTrees(i, lt), r : OpTrees(n - 1 - i, rt)] : i \in 0..(n - 1)}
-       IN IF ty = "int"
-          THEN Split("int", "int", ArithOps) \cup [k : {"un"}, op : {"-"}, e : OpTrees(n - 1, "int")]
-          ELSE Split("int", "int", CmpOps \cup EqOps) \cup Split("bool", "bool", EqOps \cup LogOps)
-               \cup [k : {"un"}, op : {"not"}, e : OpTrees(n - 1, "bool")]
-IntNames  == <<"a", "b", "c", "d">>
-BoolNames == <<"u", "v", "w", "s">>
-\* Fill(e, i, pf): number the holes from i; the hole with number pf (0 = none) becomes a postfix form.
+       IN CASE ty = "int" -> Split("int", "int", ArithOps) \cup [k : {"un"}, op : {"-"}, e : OpTrees(n - 1, "int")]
+            [] ty = "float" -> Split("float", "float", FloatOps) \cup [k : {"un"}, op : {"-"}, e : OpTrees(n - 1, "float")]
+            [] ty = "str" -> Split("str", "str", {"+"})
+            [] OTHER -> Split("int", "int", CmpOps \cup EqOps) \cup Split("bool", "bool", EqOps \cup LogOps)
+                        \cup [k : {"un"}, op : {"not"}, e : OpTrees(n - 1, "bool")]
+                        \cup (IF "float" \in XTypes THEN Split("float", "float", CmpOps \cup EqOps) ELSE {})
+                        \cup (IF "str" \in XTypes THEN Split("str", "str", EqOps) ELSE {})
+IntNames   == <<"a", "b", "c", "d">>
+BoolNames  == <<"u", "v", "w", "s">>
+FloatNames == <<"fa", "fb", "fc", "fd">>
+StrNames   == <<"sa", "sb", "sc", "sd">>
+NameOf(ty, i) == CASE ty = "int" -> IntNames[i] [] ty = "bool" -> BoolNames[i] [] ty = "float" -> FloatNames[i] [] OTHER -> StrNames[i]
+\* the operand a hole becomes under a leaf form; "var" where the form does not exist for the type
+\*   fld / tix / chain   postfix on a variable            p.x   t.1   o.p.y   p.b
+\*   call                parenthesised call               (h c)  (g c)
+\*   callfld             postfix on a parenthesised call  (mk c).y  (mk c).b
+\*   lit / neg           literals, negative literals      2  2.5  "k"  true   -3  -0.5
+LeafForm(ty, form, i) ==
+  CASE form = "fld"     -> IF ty = "int" THEN Fld(Atom("p"), "x") ELSE IF ty = "bool" THEN Fld(Atom("p"), "b") ELSE Atom(NameOf(ty, i))
+    [] form = "tix"     -> IF ty = "int" THEN Tix(Atom("t"), "1") ELSE IF ty = "bool" THEN Fld(Atom("p"), "b") ELSE Atom(NameOf(ty, i))
+    [] form = "chain"   -> IF ty = "int" THEN Fld(Fld(Atom("o"), "p"), "y") ELSE IF ty = "bool" THEN Fld(Atom("p"), "b") ELSE Atom(NameOf(ty, i))
+    [] form = "call"    -> IF ty = "int" THEN Call("h", <<Atom(IntNames[i])>>) ELSE IF ty = "bool" THEN Call("g", <<Atom(IntNames[i])>>) ELSE Atom(NameOf(ty, i))
+    [] form = "callfld" -> IF ty = "int" THEN Fld(Call("mk", <<Atom(IntNames[i])>>), "y")
+                           ELSE IF ty = "bool" THEN Fld(Call("mk", <<Atom(IntNames[i])>>), "b") ELSE Atom(NameOf(ty, i))
+    [] form = "lit"     -> Atom(CASE ty = "int" -> "2" [] ty = "float" -> "2.5" [] ty = "str" -> "\"k\"" [] OTHER -> "true")
+    [] form = "neg"     -> Atom(CASE ty = "int" -> "-3" [] ty = "float" -> "-0.5" [] OTHER -> NameOf(ty, i))
+    [] OTHER -> Atom(NameOf(ty, i))
+\* Fill(e, i, pf): number the holes from i; the hole with number pf (0 = none) takes the leaf form.
 RECURSIVE Fill(_, _, _, _)
 Fill(e, i, pf, form) ==
-  CASE e.k = "hole" ->
-         [n |-> IF i = pf THEN (IF e.ty = "int"
-                                THEN (CASE form = "fld" -> Fld(Atom("p"), "x")
-                                        [] form = "tix" -> Tix(Atom("t"), "1")
-                                        [] form = "chain" -> Fld(Fld(Atom("o"), "p"), "y")
-                                        [] OTHER -> Call("h", <<Atom(IntNames[i])>>))
-                                ELSE (CASE form \in {"fld", "tix", "chain"} -> Fld(Atom("p"), "b")
-                                        [] OTHER -> Call("g", <<Atom(IntNames[i])>>)))
-                ELSE Atom(IF e.ty = "int" THEN IntNames[i] ELSE BoolNames[i]),
-          i |-> i + 1]
+  CASE e.k = "hole" -> [n |-> IF i = pf THEN LeafForm(e.ty, form, i) ELSE Atom(NameOf(e.ty, i)), i |-> i + 1]
     [] e.k = "un"  -> LET a == Fill(e.e, i, pf, form) IN [n |-> Un(e.op, a.n), i |-> a.i]
     [] e.k = "bin" -> LET a == Fill(e.l, i, pf, form)
                           b == Fill(e.r, a.i, pf, form) IN [n |-> Bin(e.op, a.n, b.n), i |-> b.i]
 Holes3 == OpTrees(3, "int") \cup OpTrees(3, "bool") \cup OpTrees(2, "int") \cup OpTrees(2, "bool")
 T3  == {Fill(e, 1, 0, "fld").n : e \in Holes3}
 T3P == {Fill(e, 1, pf, form).n : e \in Holes3, pf \in 1..4, form \in Forms} \ T3
+\* all operand classes, one or two operators, every hole once as a literal and once as a negative literal
+Holes2X == UNION {OpTrees(k, ty) : k \in 1..2, ty \in {"int", "bool", "float", "str"}}
+T2X == {Fill(e, 1, pf, form).n : e \in Holes2X, pf \in 0..3, form \in {"lit", "neg"}}
 
 \* Deep combs (thorough): left comb a + b - a * b ... and right comb a + (b - (a * ...)), n operators.
 OpCycle == <<"+", "-", "*", "+", "-">>
@@ -175,6 +193,21 @@ RECURSIVE TextFrom(_, _)
 TextFrom(ts, i) == IF i > Len(ts) THEN ""
                    ELSE (IF i > 1 /\ ~NoSpace(ts[i - 1], ts[i]) THEN " " ELSE "") \o ts[i] \o TextFrom(ts, i + 1)
 Text(ts) == TextFrom(ts, 1)
+\* Spellings the lexical rules (SPECIFICATION 2.1, 2.4-2.6) make equivalent.  Tight: no blank around an infix
+\* operator made of symbols -- except "-": a "-" followed by a digit is a sign (2.4), so "a -3" / "a-3" are not the
+\* subtraction and are never printed.  Cmt: block comments and tabs as token separators.
+SymOps == {"+", "*", "/", "%", "==", "!=", "<", "<=", ">", ">="}
+TightAt(ts, i) == \/ ts[i] \in SymOps /\ ts[i - 1] # "("
+                  \/ ts[i - 1] \in SymOps /\ (i = 2 \/ ts[i - 2] # "(")
+RECURSIVE TightFrom(_, _), CmtFrom(_, _)
+TightFrom(ts, i) == IF i > Len(ts) THEN ""
+                    ELSE (IF i > 1 /\ ~NoSpace(ts[i - 1], ts[i]) /\ ~TightAt(ts, i) THEN " " ELSE "") \o ts[i] \o TightFrom(ts, i + 1)
+CmtFrom(ts, i) == IF i > Len(ts) THEN ""
+                  ELSE (IF i > 1 /\ ~NoSpace(ts[i - 1], ts[i])
+                        THEN (IF IsOpTok(ts[i - 1]) THEN " /* c */ " ELSE IF (i % 2) = 0 THEN "\t" ELSE "  ") ELSE "")
+                       \o ts[i] \o CmtFrom(ts, i + 1)
+TextTight(ts) == TightFrom(ts, 1)
+TextCmt(ts) == CmtFrom(ts, 1)
 
 ----------------------------------------------------------------------------
 \* Reference parser; returns [n |-> node, p |-> next position].  dev = FALSE: the notation as specified.
@@ -260,7 +293,22 @@ IsBoolTree(e) == CASE e.k = "atom" -> e.x \in (DOMAIN VarBool) \cup {"true", "fa
                    [] e.k = "fld" -> e.f = "b"
                    [] e.k = "call" -> e.fn = "g"
                    [] OTHER -> FALSE
-ValText(e) == LET r == Ev(e) IN
+FloatToks == {"fa", "fb", "fc", "fd", "2.5", "-0.5"}
+StrToks   == {"sa", "sb", "sc", "sd", "\"k\""}
+RECURSIVE TyOf(_), HasX(_)
+TyOf(e) == CASE e.k = "atom" -> IF e.x \in FloatToks THEN "float" ELSE IF e.x \in StrToks THEN "string"
+                                ELSE IF e.x \in (DOMAIN VarBool) \cup {"true", "false"} THEN "bool" ELSE "int"
+             [] e.k = "un" -> IF e.op = "not" THEN "bool" ELSE TyOf(e.e)
+             [] e.k = "bin" -> IF e.op \in ArithOps THEN TyOf(e.l) ELSE "bool"
+             [] e.k = "fld" -> IF e.f = "b" THEN "bool" ELSE "int"
+             [] e.k = "call" -> IF e.fn = "g" THEN "bool" ELSE "int"
+             [] OTHER -> "int"
+\* floats and strings have no values in this spec: their trees are compared by bytecode only
+HasX(e) == CASE e.k = "atom" -> e.x \in FloatToks \cup StrToks
+             [] e.k = "un" -> HasX(e.e)
+             [] e.k = "bin" -> HasX(e.l) \/ HasX(e.r)
+             [] OTHER -> FALSE
+ValText(e) == IF HasX(e) THEN "skip" ELSE LET r == Ev(e) IN
               IF r.d THEN "div0" ELSE IF IsBoolTree(e) THEN (IF r.v THEN "true" ELSE "false") ELSE ToString(r.v)
 
 ----------------------------------------------------------------------------
@@ -288,6 +336,7 @@ Universe ==
     [] Family \in {"d3", "naive"} -> {}          \* see InitD3
     [] Family = "t3" -> T3
     [] Family = "t3p" -> T3P
+    [] Family = "t2x" -> T2X
     [] Family = "comb" -> {Atom("a")}
 
 VARIABLES e, n, ok
@@ -317,8 +366,11 @@ Verdict(t) ==
 Record(t) ==
   LET inf == Infix(t)
       dt  == ParseDev(inf)
-  IN [fam |-> Family, ty |-> IF IsBoolTree(t) THEN "bool" ELSE "int",
+  IN [fam |-> Family, ty |-> TyOf(t),
       prefix |-> Text(Prefix(t)), infix |-> Text(inf),
+      tight |-> IF Family \in {"t3", "t2x"} THEN TextTight(inf) ELSE "",
+      cmt |-> IF Family \in {"t3", "t2x"} THEN TextCmt(inf) ELSE "",
+      pcmt |-> IF Family \in {"t3", "t2x"} THEN TextCmt(Prefix(t)) ELSE "",
       dev |-> IF dt = t THEN "" ELSE IF dt = Bad THEN "?" ELSE Text(Prefix(dt)),
       shape |-> Shape(t),
       val |-> IF Family = "comb" THEN "skip" ELSE ValText(t),
